@@ -36,6 +36,7 @@
 //   * the run came to rest with a thread blocked in a condition wait whose predicate holds
 //     (lost wake-up / stranded waiter) or blocked on the mutex (deadlock);
 //   * at the normal end: a job ran more than once, done() != finished jobs.
+#include <algorithm>
 #include <cstring>
 #include <memory>
 #include <stdexcept>
@@ -75,6 +76,7 @@ struct RunState {
     std::map<int, char> in_call;             // logical thread -> blocking call it is in
     int finished_jobs = 0;
     int thrown_jobs = 0;
+    std::vector<int> dropped;                // closures destroyed with the queue by ~ThreadPool
     std::map<int, JobInst*> cur_run;         // worker thread -> the job it ran last
     std::map<int, int> init_calls;           // worker index -> number of init_thread calls
     std::map<int, long long> last_done;      // logical thread -> last value of done() it saw
@@ -125,7 +127,7 @@ Closure::~Closure() {
     if (rs->in_dtor && me == 0) {
         // ~ThreadPool (main thread) destroys the jobs that are still queued; nothing may touch the pool any more
         if (inst->runs != 0) rs->viol("job " + std::to_string(inst->id) + " was run but its closure lived until ~ThreadPool");
-        S.note("job~" + std::to_string(inst->id));
+        rs->dropped.push_back(inst->id);     // logged in id order: std::deque destroys its nodes in an unspecified order
         return;
     }
     if (inst->runs == 0) rs->viol("closure of job " + std::to_string(inst->id) + " destroyed although the job never ran and the pool is alive");
@@ -291,6 +293,8 @@ static void scenario_main() {
     rs->in_dtor = true;
     p->~ThreadPool();   // the final done() check runs when the last worker was joined (event hook)
     rs->destroyed = true;
+    std::sort(rs->dropped.begin(), rs->dropped.end());
+    for (int id : rs->dropped) S.note("job~" + std::to_string(id));
     S.note("end");
 }
 
